@@ -188,7 +188,7 @@ def _violations(rejects, events, meta):
     return out
 
 
-def routing(ctx: Ctx):
+def routing(ctx: Ctx, direct_small: bool = False):
     """spec/Factory.tla: the model of the routine factory is checked, its (topology, root) cases are emitted and the
     routine tables the real factory builds for them are validated against the model's own definitions."""
     from .. import routing as rt
@@ -197,6 +197,8 @@ def routing(ctx: Ctx):
     noliv = base.replace("PROPERTY Terminates\n", "")
     # quick: fields are scalars, structural types and named wrappers (442 k states); thorough adds direct class fields and liveness
     small = noliv.replace("Direct = TRUE", "Direct = FALSE")
+    if direct_small:       # C15's quick tier: direct class fields kept, one field per class in the model, two in the emitted cases
+        small = noliv.replace("MaxFields = 2", "MaxFields = 1")
     model = tlc.must(tlc.run("Factory", cfg_text=small if ctx.quick else base, workers=16, timeout=7200), "Factory model")
     states, trans = model.distinct, model.generated
     if not ctx.quick:
@@ -216,7 +218,7 @@ def routing(ctx: Ctx):
     cases = {json.dumps(p, sort_keys=True): p for p in em.printed if isinstance(p, dict) and "topo" in p}
     cases = [cases[k] for k in sorted(cases)]
     ncases = len(cases)
-    cases = rng.sample(cases, min(len(cases), 1500 if ctx.quick else 60000))
+    cases = rng.sample(cases, min(len(cases), (700 if direct_small else 1500) if ctx.quick else 60000))
     clear_typelib_caches()
     events, meta, drift = [], [], []
     for k, c in enumerate(cases):
